@@ -698,3 +698,58 @@ pub fn scn_chunks(out: &mut TraceOut, r: &mut R, _idx: u64, heavy: bool) {
                       "file": crate::decode::to_json(&raw, &kid, &empty)}));
     }
 }
+
+/// Spec -> implementation for the sorter's buffer accounting: size sequences generated by TLC
+/// (tlc -simulate on Sorter.tla) are replayed on the real sorter configured through hook H2; the
+/// accounting reported after every insert is logged (judged by TraceAlloc / compared by
+/// TraceSorterB) and compared here with the values the model printed (drift).
+pub fn replay_sseq(out: &mut TraceOut, doc: &Value) -> (u64, u64) {
+    let t = doc["T"].as_u64().unwrap() as usize;
+    let init = doc["InitCap"].as_u64().unwrap() as usize;
+    let realloc = doc["Realloc"].as_bool().unwrap();
+    let maxc = doc["MaxChunks"].as_u64().unwrap() as usize;
+    let mut compared = 0u64;
+    let mut drift = 0u64;
+    for (si, seq) in doc["seqs"].as_array().unwrap().iter().enumerate() {
+        out.begin(&format!("sseq/{}/{}", doc["name"].as_str().unwrap_or("s"), si));
+        out.ev(json!({"ev": "SCfg", "teff": t, "hook": true, "init": init, "realloc": realloc, "maxc": maxc,
+                      "stable": true, "mf": "concat", "threads": 0, "creator": 0, "mode": 0}));
+        let mut events: Vec<Value> = Vec::new();
+        let res = catch_unwind(AssertUnwindSafe(|| -> Result<(), String> {
+            let rec = Recorder { mf: Mf::Concat, calls: RefCell::new(Vec::new()) };
+            let pending: Pending = Rc::new(RefCell::new(Vec::new()));
+            let mut b = Sorter::builder(&rec);
+            b.allow_realloc(realloc).max_nb_chunks(maxc).verif_budget(t, init);
+            let mut sorter = b.chunk_creator(LogCreator { next: RefCell::new(0), log: pending.clone(), capture: None }).build();
+            for step in seq.as_array().unwrap() {
+                let sz = step[0].as_u64().unwrap() as usize;
+                let v = vec![0x33u8; sz];
+                sorter.insert(b"", &v).map_err(|e| e.to_string())?;
+                let (cap, elen, nb, chunks) = sorter.verif_accounting();
+                events.push(json!({"ev": "Acct", "cap": cap, "elen": elen, "nb": nb, "chunks": chunks, "size": sz}));
+                compared += 1;
+                if step[1].as_u64() != Some(cap as u64) || step[2].as_u64() != Some(elen as u64)
+                    || step[3].as_u64() != Some(nb as u64) || step[4].as_u64() != Some(chunks as u64) {
+                    drift += 1;
+                }
+                rec.calls.borrow_mut().clear();
+                pending.borrow_mut().clear();
+            }
+            let mut it = sorter.into_stream_merger_iter().map_err(|e| e.to_string())?;
+            while let Some(_) = it.next().map_err(|e| e.to_string())? {}
+            pending.borrow_mut().clear();
+            Ok(())
+        }));
+        for e in events {
+            out.ev(e);
+        }
+        let detail = match res {
+            Ok(Ok(())) => "ok".to_string(),
+            Ok(Err(e)) => format!("err: {}", e),
+            Err(e) => format!("panic: {}", panic_msg(e)),
+        };
+        out.ev(json!({"ev": "ARun", "res": if detail == "ok" { "ok" } else if detail.starts_with("panic") { "panic" } else { "err" },
+                      "overflow": detail.contains("overflow"), "detail": detail}));
+    }
+    (compared, drift)
+}
